@@ -58,12 +58,45 @@ import os
 import re
 import shutil
 import subprocess
+from concurrent.futures import ThreadPoolExecutor
 import vlib
 
 LEVEL = "model_checking"
 
 INVS = ("TypeOK FinalFilesComplete DoneImpliesSyncResult SyncIsRef PartialWithinFinal AckedRequestSurvives KnownIsPersisted QueuedIsPersisted SlotsBounded "
         "PersistedPartialsSurvive DoneIsDurable NoPartialLostOrDuplicated PersistedNeverRedone EventuallyDone").split()
+
+
+class _Shim:
+    """What vlib.run_tlc needs of a context (scratch, seed, cov), private to one task so that several TLC
+    runs can go on at the same time; the counters are added to the real context when all tasks are done."""
+
+    def __init__(self, ctx):
+        self.scratch, self.seed, self._ctx = ctx.scratch, ctx.seed, ctx
+        self.cov = {"tlc_runs": [], "states": 0, "transitions": 0}
+
+    def quick(self):
+        return self._ctx.quick()
+
+
+def _par(ctx, tasks, width=4):
+    """tasks: name -> callable(ctx). Runs them `width` at a time; results by name; the first failure is raised."""
+    shims = {k: _Shim(ctx) for k in tasks}
+    with ThreadPoolExecutor(max_workers=width) as ex:
+        futs = {k: ex.submit(f, shims[k]) for k, f in tasks.items()}
+        out, err = {}, None
+        for k, fu in futs.items():
+            try:
+                out[k] = fu.result()
+            except Exception as e:    # noqa: BLE001 - re-raised below, after every TLC has ended
+                err = err or e
+    for k in tasks:
+        ctx.cov["tlc_runs"] += shims[k].cov["tlc_runs"]
+        ctx.cov["states"] += shims[k].cov["states"]
+        ctx.cov["transitions"] += shims[k].cov["transitions"]
+    if err is not None:
+        raise err
+    return out
 
 
 def _design(ctx, cfg, workers=None):
@@ -99,7 +132,7 @@ def _proxy_vectors(ctx, quick):
     table, raw = {}, 0
     cfgs = ["AsyncSearch_shards2.cfg", "AsyncSearch_shards3.cfg"] + ([] if quick else ["AsyncSearch_shards2t.cfg"])
     for cfg in cfgs:
-        r = vlib.run_tlc(ctx, "AsyncSearch.tla", cfg, timeout=3000)
+        r = vlib.run_tlc(ctx, "AsyncSearch.tla", cfg, workers=max(2, vlib.NCPU // 2), timeout=3000)
         if r.violated:
             raise vlib.Infra("TLC: %s violated in AsyncSearch.tla (%s) - the required design itself is refuted" % (r.violated, cfg))
         vlib.require_tlc_ok(r, "AsyncSearch " + cfg)
@@ -130,7 +163,7 @@ def _start_vectors(ctx, quick):
     table, raw = {}, 0
     for cfg in ("AsyncSearch_pstart22%s.cfg", "AsyncSearch_pstart23%s.cfg", "AsyncSearch_pstart32%s.cfg"):
         cfg = cfg % ("q" if quick else "")
-        r = vlib.run_tlc(ctx, "AsyncSearch.tla", cfg, timeout=3000)
+        r = vlib.run_tlc(ctx, "AsyncSearch.tla", cfg, workers=max(2, vlib.NCPU // 2), timeout=3000)
         if r.violated:
             raise vlib.Infra("TLC: %s violated in AsyncSearch.tla (%s) - the required design itself is refuted" % (r.violated, cfg))
         vlib.require_tlc_ok(r, "AsyncSearch " + cfg)
@@ -155,7 +188,7 @@ def _queue_behaviours(ctx, quick):
     table, raw = {}, 0
     for nf in (1, 2, 3):
         cfg = "AsyncSearch_qemit%d%s.cfg" % (nf, "" if quick else "t")
-        r = vlib.run_tlc(ctx, "AsyncSearch.tla", cfg, timeout=3000)
+        r = vlib.run_tlc(ctx, "AsyncSearch.tla", cfg, workers=max(2, vlib.NCPU // 2), timeout=3000)
         if r.violated:
             raise vlib.Infra("TLC: %s violated in AsyncSearch.tla (%s)" % (r.violated, cfg))
         vlib.require_tlc_ok(r, "AsyncSearch " + cfg)
@@ -190,7 +223,7 @@ def _behaviours(ctx, quick):
     out, seen, raw = [], set(), 0
     for nf in (1, 2, 3):
         cfg = "AsyncSearch_emit%d%s.cfg" % (nf, "q" if quick else "")
-        r = vlib.run_tlc(ctx, "AsyncSearch.tla", cfg, timeout=3000)
+        r = vlib.run_tlc(ctx, "AsyncSearch.tla", cfg, workers=max(2, vlib.NCPU // 2), timeout=3000)
         if r.violated:
             raise vlib.Infra("TLC: %s violated in AsyncSearch.tla (%s)" % (r.violated, cfg))
         vlib.require_tlc_ok(r, "AsyncSearch " + cfg)
@@ -297,34 +330,42 @@ def run(ctx):
     quick = ctx.quick()
     drv = vlib.build_driver("asyncsearch")
 
-    # 1. the design
-    _design(ctx, "AsyncSearch_design.cfg" if quick else "AsyncSearch_design3.cfg")
-    _design(ctx, "AsyncSearch_corpora2.cfg" if quick else "AsyncSearch_corpora3.cfg")
-    _design(ctx, "AsyncSearch_shcorporaq.cfg" if quick else "AsyncSearch_shcorpora.cfg")
-    _design(ctx, "AsyncSearch_queue.cfg" if quick else "AsyncSearch_queue3.cfg")
+    # 1. the design; 2. non-vacuity of the invariants (spec mutations that must be refuted); 3. behaviours,
+    # proxy vectors, start vectors, queue behaviours.  The TLC runs are independent: four at a time.
+    hw = max(2, vlib.NCPU // 2)
+    tasks = {
+        "design": lambda c: _design(c, "AsyncSearch_design.cfg" if quick else "AsyncSearch_design3.cfg", workers=hw),
+        "corpora": lambda c: _design(c, "AsyncSearch_corpora2.cfg" if quick else "AsyncSearch_corpora3.cfg", workers=hw),
+        "shcorpora": lambda c: _design(c, "AsyncSearch_shcorporaq.cfg" if quick else "AsyncSearch_shcorpora.cfg", workers=hw),
+        "queue": lambda c: _design(c, "AsyncSearch_queue.cfg" if quick else "AsyncSearch_queue3.cfg", workers=hw),
+        "pvecs": lambda c: _proxy_vectors(c, quick),
+        "svecs": lambda c: _start_vectors(c, quick),
+        "behs": lambda c: _behaviours(c, quick),
+        "qbehs": lambda c: _queue_behaviours(c, quick),
+        "refuted": lambda c: [
+            _must_refute(c, "AsyncSearch_mut_order.cfg", ("FinalFilesComplete",)),
+            _must_refute(c, "AsyncSearch_mut_nosync.cfg", ("FinalFilesComplete",)),
+            _must_refute(c, "AsyncSearch_mut_interval.cfg", ("DoneImpliesSyncResult", "PartialWithinFinal")),
+            _must_refute(c, "AsyncSearch_mut_donelast.cfg", ("PDoneImpliesSyncResult",)),
+            _must_refute(c, "AsyncSearch_mut_latepersist.cfg", ("AckedRequestSurvives",)),
+            _must_refute(c, "AsyncSearch_mut_startignore.cfg", ("PDoneImpliesSyncResult", "PStartedEverywhere")),
+        ],
+    }
     if not quick:
-        _design(ctx, "AsyncSearch_shards3t.cfg")
-    pvecs, praw = _proxy_vectors(ctx, quick)
+        tasks["shards3t"] = lambda c: _design(c, "AsyncSearch_shards3t.cfg", workers=hw)
+    res = _par(ctx, tasks)
+    pvecs, praw = res["pvecs"]
     pf = os.path.join(ctx.scratch, "pvecs.jsonl")
     vlib.write_jsonl(pf, pvecs)
-    svecs, sraw = _start_vectors(ctx, quick)
+    svecs, sraw = res["svecs"]
     sf = os.path.join(ctx.scratch, "svecs.jsonl")
     vlib.write_jsonl(sf, svecs)
-    # 2. non-vacuity of the invariants (spec mutations that must be refuted)
-    ctx.cov["refuted_spec_mutations"] = [
-        _must_refute(ctx, "AsyncSearch_mut_order.cfg", ("FinalFilesComplete",)),
-        _must_refute(ctx, "AsyncSearch_mut_nosync.cfg", ("FinalFilesComplete",)),
-        _must_refute(ctx, "AsyncSearch_mut_interval.cfg", ("DoneImpliesSyncResult", "PartialWithinFinal")),
-        _must_refute(ctx, "AsyncSearch_mut_donelast.cfg", ("PDoneImpliesSyncResult",)),
-        _must_refute(ctx, "AsyncSearch_mut_latepersist.cfg", ("AckedRequestSurvives",)),
-        _must_refute(ctx, "AsyncSearch_mut_startignore.cfg", ("PDoneImpliesSyncResult", "PStartedEverywhere")),
-    ]
-    # 3. behaviours
-    behs, raw = _behaviours(ctx, quick)
+    ctx.cov["refuted_spec_mutations"] = res["refuted"]
+    behs, raw = res["behs"]
     bf = os.path.join(ctx.scratch, "behs.jsonl")
     vlib.write_jsonl(bf, behs)
     per_nf = {nf: sum(1 for b in behs if b["nf"] == nf) for nf in (1, 2, 3)}
-    qbehs, qraw = _queue_behaviours(ctx, quick)
+    qbehs, qraw = res["qbehs"]
     qf = os.path.join(ctx.scratch, "qbehs.jsonl")
     vlib.write_jsonl(qf, qbehs)
     # 4. corpora / queries / aggregations: the C06 case stream
@@ -354,7 +395,7 @@ def run(ctx):
             perm = (hsh >> 22) % 12
             nshard[shards] += 1
         # the queue: the slots can only be kept busy at an active fraction
-        queue = 0 if (hsh >> 1) % 2 else 1
+        queue = 0 if (hsh >> 1) % 2 else 2
         nqueue += queue
         jobs.append('{"case":%s,"take":%d,"pick":%d,"dup":%s,"sealLast":%s,"storeRestart":%s,"proxy":%s,"asc":%s,"pipe":%s,"shards":%d,"ghostMask":%d,"perm":%d,"queue":%d}' % (
             ln, take, i * take // 2, "true" if i % 4 == 3 else "false", "true" if (hsh >> 1) % 2 else "false",
@@ -443,7 +484,7 @@ def run(ctx):
                        "partial results (or a real interruption). queue behaviour = history of AsyncSearch.tla with Parallelism 1..%d and %d other requests (not started / "
                        "queued / running / finished) whose crash finds the request waiting for a slot or before its last fraction, reduced to the states a real searcher can "
                        "be held in; one per job with an active last fraction. start vector = accept / refuse for every replica of 2x2, 2x3, 3x2 shards x replicas: all vectors "
-                       "with a refusing shard and 10 of the others per shard job" % (1 if quick else 2, take, 2 if quick else 3, 2 if quick else 3))
+                       "with a refusing shard and 20 of the others per shard job" % (1 if quick else 2, take, 2 if quick else 3, 2 if quick else 3))
     ctx.assumptions += [
         "a crash keeps completed operations; data written but not fsynced may be absent, cut or complete; a rename without directory fsync may or may not have happened (no reordering across an fsync)",
         "crash images are built from the real files of completed legs (a partial result is kept or removed, a temp file is a whole/half/empty copy); the only real interruption is the one before the last captured fraction when it is the active one (hook pf.read); there is no hook inside mustWriteFileAtomic, its operation order is observed with strace on one request per run",
